@@ -228,6 +228,11 @@ func (c *Ctx) callClosure(st *State, fr *Frame, instr ssa.Instruction, fn *ssa.F
 
 func (c *Ctx) callFunction(st *State, fr *Frame, instr ssa.Instruction, callee *ssa.Function, args []T, k func(st *State, results []T)) {
 	ct := c.contractFor(callee)
+	if ct != nil && ct.Flags["synthetic"] && c.canInline(fr, callee, nil) {
+		// a schematic (sweep) contract says less than the body of a small function: inline as before
+		c.inline(st, fr, instr, callee, args, nil, k)
+		return
+	}
 	if ct != nil && !ct.Flags["inline"] {
 		c.applyContract(st, fr, instr, ct, funcPkgPath(callee)+"."+relFuncName(callee), callee.Signature, callee, args, nil, k)
 		return
@@ -319,6 +324,8 @@ func (c *Ctx) inline(st *State, fr *Frame, instr ssa.Instruction, callee *ssa.Fu
 // havocked; the callee is assumed total (listed as an assumption).
 func (c *Ctx) unknownCall(st *State, fr *Frame, instr ssa.Instruction, name string, sig *types.Signature, k func(st *State, results []T)) {
 	c.unknownCalls[name]++
+	// a function with a frame cannot call code whose footprint is unknown
+	c.frameCheckCall(st, fr, instr, name, nil, true)
 	c.havocAll(st)
 	k(st, c.freshResults(st, sig))
 }
@@ -543,13 +550,13 @@ func shortName(n string) string {
 
 // Loc is one assignable location set.
 type Loc struct {
-	Kind string // cell cells region map ghost all
-	Addr string // cell: address; cells: slice term; region: any address in the object; map: map ref
-	Ty   types.Type
-	Key  string // ghost memory key
-	Idx  string // ghost: owner term
+	Kind      string // cell cells region map ghost all
+	Addr      string // cell: address; cells: slice term; region: any address in the object; map: map ref
+	Ty        types.Type
+	Key       string // ghost memory key
+	Idx       string // ghost: owner term
 	OwnerSort string
-	Text string
+	Text      string
 }
 
 func (c *Ctx) evalAssigns(se *SpecEnv, ct *Contract, kind string, loop int) (locs []Loc, star bool) {
@@ -849,9 +856,7 @@ func (c *Ctx) frameCheckCall(st *State, fr *Frame, instr ssa.Instruction, name s
 		}
 	}
 	g := and(gs...)
-	if g != "true" {
-		c.oblige(st, fr, instr, "frame", "assigns of callee "+name+" are inside the caller's assigns clause or fresh", g, nil, nil)
-	}
+	c.oblige(st, fr, instr, "frame", "assigns of callee "+name+" are inside the caller's assigns clause or fresh", g, nil, nil)
 }
 
 // ---------- builtins ----------
@@ -1088,7 +1093,9 @@ func (c *Ctx) execCopy(st *State, fr *Frame, instr ssa.Instruction, call *ssa.Ca
 
 // ---------- loops ----------
 
-func (c *Ctx) loopKey(fr *Frame, b *ssa.BasicBlock) string { return fmt.Sprintf("%d:%d", fr.id, b.Index) }
+func (c *Ctx) loopKey(fr *Frame, b *ssa.BasicBlock) string {
+	return fmt.Sprintf("%d:%d", fr.id, b.Index)
+}
 
 func (c *Ctx) loopClauses(fr *Frame, li *loopInfo, kind string) []*Clause {
 	ct := fr.contract
